@@ -14,17 +14,17 @@ def block(name, text, s):
 
 ids = [json.loads(l)["id"] for l in open(os.path.join(HERE, "properties.jsonl"))]
 titles = {json.loads(l)["id"]: json.loads(l)["title"] for l in open(os.path.join(HERE, "properties.jsonl"))}
-rows = ["| Prop | level | functions under contract (bounded) | obligations proved / total | known findings | wall s (last run) | not reached |", "|---|---|---|---|---|---|---|"]
+rows = ["| Prop | level | functions under contract (bounded) | obligations proved / total (unbounded contracts) | bounded checks held / total (never counted as proved) | known findings | wall s (last run) | not reached |", "|---|---|---|---|---|---|---|---|"]
 for pid in ids:
     ev = os.path.join(HERE, "evidence", f"{pid}.json")
     spec = props.PROPERTIES.get(pid)
     if not spec or not os.path.exists(ev) or not os.path.exists(os.path.join(HERE, "locks", f"{pid}.json")):
-        rows.append(f"| {pid} | not claimed | | | | | {props.NOT_APPLICABLE.get(pid, '')[:120]} |")
+        rows.append(f"| {pid} | not claimed | | | | | | {props.NOT_APPLICABLE.get(pid, '')[:120]} |")
         continue
     e = json.load(open(ev))
     c = e["coverage"]
     nb = sum(1 for f in c["functions"] if f.get("bounded"))
-    rows.append(f"| {pid} | {e['level']} | {len(c['functions'])} ({nb}) | {c['discharged']} / {c['obligations']} | {len(c.get('known_finding_obligations', []))} | {e['wall_s']} | {'; '.join(spec.get('not_reached', []))[:260]} |")
+    rows.append(f"| {pid} | {e['level']} | {len(c['functions'])} ({nb}) | {c['discharged']} / {c['obligations']} | {c.get('bounded_checks', {}).get('held', 0)} / {c.get('bounded_checks', {}).get('total', 0)} | {len(c.get('known_finding_obligations', []))} | {e['wall_s']} | {'; '.join(spec.get('not_reached', []))[:260]} |")
 status = "\n".join(rows)
 
 kf = [json.loads(l) for l in open(os.path.join(HERE, "KNOWN_FINDINGS.jsonl")) if l.strip()]
